@@ -74,7 +74,9 @@ def pos_cases(draw):
     if keymode == "keyset_kid":
         hdr["kid"] = "the-key"
     return {"kind": "pos", "claims": claims, "dt": dt, "transport": transport, "header": hdr, "key": gk.key_to_record(key),
-            "keymode": keymode, "form": draw(st.sampled_from(KEYFORMS))}
+            "keymode": keymode, "form": draw(st.sampled_from(KEYFORMS)),
+            # how the caller names what is allowed: a registry built for it, the algorithms= list, or (JWE: a registry selects the transport) both
+            "allow": draw(st.sampled_from(["registry", "algorithms", "both"]))}
 
 
 neg_payload = st.one_of(
@@ -129,8 +131,15 @@ def run_pos(case) -> dict:
         if case["keymode"] == "callable":
             return lambda obj: k
         return KeySet([k, decoy])
-    reg = jwe.JWERegistry(algorithms=jweplan.ALL_NAMES) if jwe_t else None
-    kw = {"registry": reg} if jwe_t else {"algorithms": ALL_JWS}
+    allow = case.get("allow", "registry" if jwe_t else "algorithms")
+    if jwe_t:
+        # a JWERegistry instance selects the JWE transport; the names may come from it or from algorithms=
+        kw = ({"registry": jwe.JWERegistry(algorithms=jweplan.ALL_NAMES)} if allow == "registry" else
+              {"registry": jwe.JWERegistry(), "algorithms": [case["header"]["alg"], case["header"]["enc"]] + (["DEF"] if "zip" in case["header"] else [])})
+    else:
+        from joserfc import jws as _jws
+        kw = ({"registry": _jws.JWSRegistry(algorithms=ALL_JWS)} if allow == "registry" else {"algorithms": ALL_JWS} if allow == "algorithms" else
+              {"algorithms": [case["header"]["alg"]]})
     header = copy.deepcopy(case["header"])
     before = copy.deepcopy(header)
     tag = case["transport"]
